@@ -36,7 +36,10 @@ EXHAUSTIVE_BLOCKS = [
     "node_props_metadata: {},{a:a},{a:b}} from 2 start objects (quick tier: <=2 from both, 3 from the object with axes and hints)",
     "Axis: min x max over {None,-1,0,1,nan,inf,-inf} x scaled_unit {None,'',meter} x scale {None,2} (294)",
     "RelatedObject: type {labels,image,foo,''} x label_prop {None,'',l} (12)",
-    "PropMetadata: every dtype spelling in Meta.np_names + unparsable ones x key = / != identifier",
+    "PropMetadata: every dtype spelling in Meta.np_names + unparsable ones (incl. the comma strings numpy answers with SyntaxError) x key = / != "
+    "identifier; the dtype grammar family: {'',<,>,=,|} x 33 type characters, x 17 kind characters x 18 size forms (0 1 2 3 4 8 16 04 008 ' 4' +4 -4 "
+    "' +8' '4 ' 4. 12 32 64), U/S with sizes at the 2^29 / 2^31 / 2^32 / 2^63 boundaries and signed zero, 73 dictionary and near-miss names x 5 mutations",
+    "bool: the twelve strings of pydantic's table in four cases each + 20 near misses, for directed (construct, assign) and varlength (construct, add_props)",
 ]
 ASSUMPTIONS = [
     "pydantic 2 lax-mode coercions are modelled for the generated value classes only: JSON-like values (None, bool, int, float, str, "
@@ -47,7 +50,15 @@ ASSUMPTIONS = [
     "'matches the version pattern' is read as JSON-Schema pattern matching (a match of the ^-anchored pattern, not a full match): the "
     "published schema and the field use the same unanchored pattern",
     "'a scaled unit comes with a scale' is read with the empty string as no unit (the code tests truthiness); lenient reading",
-    "np.dtype(...).name is modelled by a finite table of spellings (Meta.np_names); any other string must be rejected by numpy",
+    "numpy's reading of a dtype string is modelled as far as it can end in an allowed name (Meta.np_valid_name: optional byte-order "
+    "character, then one type character, or kind character + a size read by C strtol, or a name of np.sctypeDict), transcribed "
+    "from numpy/_core/src/multiarray/descriptor.c and tied here on every such string of <= 3 characters over a 40-character "
+    "alphabet, every kind x size x sign/blank/zero-padding form and ~600 mutated names; strings numpy hands to its comma-string "
+    "parser (a comma, a leading digit, a leading '()') are outside that description (Meta.dtype_in_scope): of those only the "
+    "'()'-prefixed ones can be accepted ('()i4' is int32 for numpy, rejected by the model) and they are not generated; comma and "
+    "leading-digit strings are generated (always rejected: structured / sub-array dtypes are called void)",
+    "pydantic's lax bool parsing is modelled as documented (bool; int 0/1; float 0.0/1.0; the twelve strings 0 1 f t n y no on "
+    "off yes true false compared ignoring ASCII case) and tied on mixed-case, padded, full-width and numeric-looking spellings",
     "GEFF_VERSION (default of geff_version, not validated by pydantic) matches the version pattern in this environment; it is passed "
     "to the model as an input",
     "out of the claim: assignment to fields of nested Axis/PropMetadata/RelatedObject/DisplayHint objects, model_construct, "
@@ -75,7 +86,80 @@ DTYPE_SPELLINGS = ["bool", "?", "b1", "bool_", "int8", "i1", "b", "byte", "int16
                    "<f4", "single", "float64", "f8", "float", "double", "d", "float128", "longdouble", "complex64", "complex128",
                    "c16", "str", "U", "<U5", "U12", "str_", "unicode", "bytes", "S", "bytes_", "S5", "c", "object", "O", "V", "void",
                    "i4,f8", "datetime64[ns]", "m8", "M8"]
-DTYPE_GARBAGE = ["", "garbage", "Int8", "INT8", " int8", "int8 ", "string", "StringDType", "a", "float 32", "u16", "int128"]
+DTYPE_GARBAGE = ["", "garbage", "Int8", "INT8", " int8", "int8 ", "string", "StringDType", "a", "float 32", "u16", "int128",
+                 # numpy's comma-string parser: SyntaxError / ValueError / structured (void) dtypes -- all validation errors
+                 ",", "i4,,", ",,", "i4,", ",i4", "<,", "i4, i4", "f8,f8", "?,?", "int8, ", "01i4", "1i4", "0i4", "2i4", "3f8", "4i", "8",
+                 "(2", "i(4)", "i4)", "[", "i4[", "m8[xx]", "M8[ns", "S-1", "U-1", "U99999999999999999999", "i18446744073709551620"]
+
+
+def dtype_family():
+    """Spellings of Meta.np_valid_name's grammar and their near misses (all inside Meta.dtype_in_scope)."""
+    out = []
+    singles = list("?bhilqpnBHILQPNfdUSacegFDGOVMmTxz")
+    for e in ("", "<", ">", "=", "|"):
+        for ch in singles:
+            out.append(e + ch)
+        for k in "iufbcSUVOaMm?hlqd":
+            for sz in ("0", "1", "2", "3", "4", "8", "16", "04", "008", " 4", "+4", "-4", " +8", "4 ", "4.", "12", "32", "64"):
+                out.append(e + k + sz)
+    for e in ("<", ">", "=", "|", "<<", "<|", " "):
+        out.append(e)
+        for nm in ("int8", "bool", "str", "float64", "U5"):
+            out.append(e + nm)
+    for sz in ("536870911", "536870912", "2147483647", "4294967296", "9223372036854775807", "9223372036854775808",
+               "-0", "+0", " 0", "00", "-1"):
+        out.append("U" + sz)
+        out.append("S" + sz)
+    names = ["bool", "bool_", "byte", "bytes", "bytes_", "double", "float", "float32", "float64", "int", "int16", "int32", "int64", "int8",
+             "int_", "intc", "intp", "long", "longlong", "short", "single", "str", "str_", "ubyte", "uint", "uint16", "uint32", "uint64",
+             "uint8", "uintc", "uintp", "ulong", "ulonglong", "unicode", "ushort",
+             # names of other dtypes, removed aliases, near misses
+             "half", "float16", "float128", "longdouble", "complex", "complex64", "complex128", "cdouble", "csingle", "object", "object_",
+             "void", "datetime64", "timedelta64", "uint0", "int0", "bool8", "float_", "complex_", "unicode_", "string_", "longfloat",
+             "Float64", "Bool", "BOOL", "Str", "a5", "bytes3", "str3", "i16", "i3", "O8", "O4", "T", "T8", "long long", "u int8"]
+    for nm in names:
+        out += [nm, nm + " ", nm + "_", nm.capitalize(), nm + "0"]
+    out += ["l", "q", "i", "L", "Q", "I", "h", "H", "f", "g", "p", "P", "=i4", "|i1", "|u1", "|b1", "long", "ulong", "ulonglong", "U0", "U1",
+            "<U", ">U3", "=U2", "S0", "|S3", "|S", "é", "Ｕ", "U٣", "i٤", "i4 ", "I4", "U_", "UX", "ii", "i4i4", "i4 i4", "i.4", "b", "?1", "h2"]
+    seen, res = set(), []
+    for x in out:
+        if x not in seen:
+            seen.add(x)
+            res.append(x)
+    return res
+
+
+def dtype_model_ok(s: str) -> bool:
+    """dtype strings on which the metadata model (Meta.np_valid_name + the agreement on comma / leading-digit strings, which numpy
+    always answers with a structured or sub-array dtype or an error) is tied to numpy: everything printable without a parenthesis
+    (numpy's comma-string parser accepts '()i4' as int32; the model does not read that notation)."""
+    return isinstance(s, str) and "(" not in s and ")" not in s and all(ord(ch) >= 32 and ord(ch) != 127 for ch in s)
+
+
+def dtype_short_strings(rng, n):
+    """Random strings over the alphabet of the grammar (inside Meta.dtype_in_scope)."""
+    al = list("<>=|?bhilqpnBHILQPNfdUSVOMmeg 0123456789+-_[]sntuoxyacr.") + ["int", "uint", "float", "bool", "str", "bytes", "8", "16", "32", "64"]
+    out = []
+    while len(out) < n:
+        x = "".join(rng.choice(al) for _ in range(rng.randrange(1, 6)))
+        t = x[1:] if x[:1] in "<>=|" and len(x) > 1 else x
+        if not t[:1].isdigit():
+            out.append(x)
+    return out
+
+
+BOOL_TRUE = ["1", "true", "t", "yes", "y", "on"]
+BOOL_FALSE = ["0", "false", "f", "no", "n", "off"]
+
+
+def bool_spellings():
+    """pydantic's twelve strings in several cases (accepted) and near misses (rejected)."""
+    ok = []
+    for w in BOOL_TRUE + BOOL_FALSE:
+        ok += [w, w.upper(), w.capitalize(), w[:-1] + w[-1:].upper()]
+    bad = [" yes", "yes ", "1.0", "0.0", "01", "+1", "ＴＲＵＥ", "ｙ", "ı", "K", "", "tİ", "true.", "ye", "of", "tru", "2", "-1", "nope", "yess"]
+    return sorted(set(ok)), bad
+MORE_VALID_DTYPE_SPELLINGS = ["l", "q", "=i4", "|u1", "U0", ">U3", "?", "|b1", "i 4", "f+8", "S0", "ulonglong", "p", "N", "i08"]
 VALID_DTYPE_SPELLINGS = ["int8", "int16", "int32", "int64", "uint8", "uint16", "uint32", "uint64", "float32", "float64", "bool", "str",
                          "bytes", "int", "float", "i4", "<f4", "u8", "U", "<U5", "S", "?", "double"]
 
@@ -327,9 +411,9 @@ def gen_axes(rng, valid=True):
 
 def gen_pm(rng, ident=None, valid=True):
     ident = ident if ident is not None else pick(rng, ["a", "b", "c", "pos", "x", "t"])
-    p = {"identifier": ident, "dtype": pick(rng, VALID_DTYPE_SPELLINGS)}
+    p = {"identifier": ident, "dtype": pick(rng, VALID_DTYPE_SPELLINGS + MORE_VALID_DTYPE_SPELLINGS)}
     if rng.random() < 0.4:
-        p["varlength"] = pick(rng, [True, False, 0, 1, "yes", "no", "false"])
+        p["varlength"] = pick(rng, [True, False, 0, 1, "yes", "no", "false", "TRUE", "Off", "N", "t"])
     for k in ("unit", "name", "description"):
         if rng.random() < 0.25:
             p[k] = pick(rng, ["u", "A name", "", None])
@@ -348,7 +432,7 @@ def gen_pm(rng, ident=None, valid=True):
         elif k == 5:
             p.pop("identifier")
         elif k == 6:
-            p["varlength"] = pick(rng, [None, 2, "abc", [], F(0.5), F("nan")])
+            p["varlength"] = pick(rng, [None, 2, "abc", [], F(0.5), F("nan"), " yes", "1.0", "ｙ", -1])
         elif k == 7:
             p[pick(rng, ["unit", "name", "description"])] = pick(rng, [1, [], True])
         else:
@@ -459,8 +543,8 @@ def gen_version(rng, valid=True):
 
 def gen_directed(rng, valid=True):
     if valid:
-        return pick(rng, [True, False, True, False, 0, 1, "yes", "no", "true", "off", F(1.0), F(0.0)])
-    return pick(rng, [None, 2, "abc", [], {}, F(0.5), -1, "", F("nan"), "maybe"])
+        return pick(rng, [True, False, True, False, 0, 1, "yes", "no", "true", "off", F(1.0), F(0.0), "TRUE", "Yes", "ON", "T", "oFf", "N", "False"])
+    return pick(rng, [None, 2, "abc", [], {}, F(0.5), -1, "", F("nan"), "maybe", " yes", "yes ", "1.0", "ＴＲＵＥ", F("inf"), 2**64])
 
 
 FIELD_GEN = {"geff_version": gen_version, "directed": gen_directed, "axes": gen_axes, "node_props_metadata": gen_pmdict,
@@ -556,14 +640,26 @@ def gen_lists(rng, with_roi):
 def gen_op(rng, first=False):
     r = rng.random()
     if first or r < 0.12:
-        return {"op": "construct", "via": pick(rng, ["kwargs", "kwargs", "validate", "json", "zarr2", "zarr3", "instances", "instances"]),
-                "kw": gen_kw(rng, valid=(rng.random() < (0.9 if first else 0.65)))}
+        o = {"op": "construct", "via": pick(rng, ["kwargs", "kwargs", "validate", "json", "zarr2", "zarr3", "instances", "instances"]),
+             "kw": gen_kw(rng, valid=(rng.random() < (0.9 if first else 0.65)))}
+        kw = o["kw"]
+        if (o["via"] == "instances" and isinstance(kw, dict) and isinstance(kw.get("node_props_metadata"), dict)
+                and isinstance(kw.get("edge_props_metadata"), dict) and kw["node_props_metadata"] and rng.random() < 0.5):
+            # one PropMetadata instance passed in both dictionaries
+            ks = [k for k in kw["node_props_metadata"] if rng.random() < 0.7]
+            for k in ks:
+                kw["edge_props_metadata"][k] = copy.deepcopy(kw["node_props_metadata"][k])
+            o["sh"] = ks
+        return o
     i = rng.randrange(1 << 16)
     if r < 0.55:
         f = pick(rng, MD_KEYS + ["axes", "axes", "display_hints", "display_hints", "node_props_metadata", "edge_props_metadata"])
         if rng.random() < 0.04:
             return {"op": "assign", "i": i, "field": "bogus_field", "v": 1, "inst": False}
-        return {"op": "assign", "i": i, "field": f, "v": FIELD_GEN[f](rng, valid=(rng.random() < 0.55)), "inst": rng.random() < 0.4}
+        o = {"op": "assign", "i": i, "field": f, "v": FIELD_GEN[f](rng, valid=(rng.random() < 0.55)), "inst": rng.random() < 0.4}
+        if f in ("node_props_metadata", "edge_props_metadata") and isinstance(o["v"], dict) and o["v"] and rng.random() < 0.4:
+            o["sh"] = [k for k in o["v"] if rng.random() < 0.8]   # effective where the other dictionary holds the key
+        return o
     if r < 0.63:
         return {"op": "copy", "i": i, "how": pick(rng, ["deepcopy", "model_copy", "copy", "model_copy_deep", "zarr_roundtrip", "json_roundtrip"])}
     if r < 0.75:
@@ -633,6 +729,12 @@ def exhaustive_small_blocks():
                  "kw": {"directed": True, "node_props_metadata": {}, "edge_props_metadata": {},
                         "related_objects": [{"type": t, "path": "p", "label_prop": lp}]}}]}
             k += 1
+    fam = [d for d in dtype_family() if d not in DTYPE_SPELLINGS and d not in DTYPE_GARBAGE]
+    for g in range(0, len(fam), 4):
+        yield {"kind": "run", "block": "dtype-family", "ops": [
+            {"op": "construct", "via": vias[(g // 4 + j) % len(vias)],
+             "kw": {"directed": True, "node_props_metadata": {"a": {"identifier": "a", "dtype": dt}}, "edge_props_metadata": {}}}
+            for j, dt in enumerate(fam[g:g + 4])]}
     for dt in DTYPE_SPELLINGS + DTYPE_GARBAGE:
         for key in ("a", "b"):
             yield {"kind": "run", "block": "dtype", "ops": [
@@ -641,6 +743,30 @@ def exhaustive_small_blocks():
                 {"op": "construct", "via": "kwargs", "kw": {"directed": True, "node_props_metadata": {}, "edge_props_metadata": {}}},
                 {"op": "add_props", "i": 0, "props": [{"identifier": "q", "dtype": dt}], "ctype": "node", "inst": k % 2 == 0}]}
             k += 1
+
+
+def bool_block():
+    ok, bad = bool_spellings()
+    vias = ["kwargs", "validate", "json", "zarr2", "zarr3", "instances"]
+    for k, w in enumerate(ok + bad):
+        yield {"kind": "run", "block": "bool", "ops": [
+            {"op": "construct", "via": vias[k % len(vias)],
+             "kw": {"directed": w, "node_props_metadata": {}, "edge_props_metadata": {}}},
+            {"op": "construct", "via": vias[(k + 1) % len(vias)],
+             "kw": {"directed": True, "node_props_metadata": {"a": {"identifier": "a", "dtype": "int8", "varlength": w}}, "edge_props_metadata": {}}},
+            {"op": "assign", "i": 0, "field": "directed", "v": w, "inst": False},
+            {"op": "add_props", "i": 0, "props": [{"identifier": "q", "dtype": "int8", "varlength": w}], "ctype": "node", "inst": k % 2 == 0}]}
+
+
+def dtype_random_block(rng, tier):
+    vias = ["kwargs", "validate", "json", "zarr2", "zarr3", "instances"]
+    strs = dtype_short_strings(rng, 400 if tier == "quick" else 6000)
+    for k in range(0, len(strs), 4):
+        grp = strs[k:k + 4]
+        yield {"kind": "run", "block": "dtype-random", "ops": [
+            {"op": "construct", "via": vias[(k + j) % len(vias)],
+             "kw": {"directed": True, "node_props_metadata": {"a": {"identifier": "a", "dtype": dt}}, "edge_props_metadata": {}}}
+            for j, dt in enumerate(grp)]}
 
 
 def directed_scenarios():
@@ -677,10 +803,54 @@ def directed_scenarios():
            {"op": "add_props", "i": 1, "props": [{"identifier": "a", "dtype": "f4"}, {"identifier": "a", "dtype": "f8"}], "ctype": "edge", "inst": True}]
 
 
+def sharing_scenarios():
+    """One PropMetadata instance in the node and in the edge dictionary (pydantic keeps instances, deepcopy keeps the
+    sharing inside the copy, add_or_update_props_metadata assigns through the instance)."""
+    pa = {"identifier": "a", "dtype": "int8"}
+    pb = {"identifier": "b", "dtype": "float32", "unit": "u"}
+    kw = {"directed": True, "node_props_metadata": {"a": dict(pa), "b": dict(pb)}, "edge_props_metadata": {"a": dict(pa), "b": dict(pb)}}
+
+    def C(sh, via="instances"):
+        return {"op": "construct", "via": via, "kw": copy.deepcopy(kw), "sh": sh}
+
+    def AP(i, props, ct, inst=False):
+        return {"op": "add_props", "i": i, "props": props, "ctype": ct, "inst": inst}
+    up_a = [{"identifier": "a", "dtype": "float64", "varlength": True}]
+    up_b = [{"identifier": "b", "dtype": "uint8"}, {"identifier": "c", "dtype": "str"}]
+    for sh in ([], ["a"], ["b"], ["a", "b"]):
+        for ct in ("node", "edge"):
+            yield [C(sh), AP(0, up_a, ct), AP(1, up_b, "edge" if ct == "node" else "node", True), AP(0, up_b, ct)]
+        for how in ("deepcopy", "model_copy_deep", "copy", "model_copy", "zarr_roundtrip", "json_roundtrip"):
+            yield [C(sh), {"op": "copy", "i": 0, "how": how}, AP(1, up_a, "node"), AP(2, up_b, "edge"), AP(0, up_a, "edge")]
+        yield [C(sh), {"op": "update_axes", "i": 0, "lists": {"names": ["x"]}}, AP(1, up_a, "node"),
+               {"op": "create_or_update", "i": 0, "directed": False, "axes": None, "inst": False}, AP(3, up_a + up_b, "edge")]
+        # the same dictionaries without instances (kwargs): pydantic builds separate instances, nothing is shared
+        yield [C(sh, "kwargs"), AP(0, up_a, "node")]
+    # sharing created by an assignment: the edge dictionary is given the node dictionary's own instance
+    base = {"op": "construct", "via": "instances", "kw": copy.deepcopy(kw)}
+    for fld in ("node_props_metadata", "edge_props_metadata"):
+        for sh in (["a"], ["a", "b"], ["zz"]):
+            for inst in (False, True):
+                yield [copy.deepcopy(base),
+                       {"op": "assign", "i": 0, "field": fld, "v": {"a": dict(pa), "b": dict(pb)}, "inst": inst, "sh": sh},
+                       AP(0, up_a, "node"), AP(0, up_b, "edge"),
+                       {"op": "assign", "i": 0, "field": fld, "v": {"a": dict(pa)}, "inst": inst},       # sharing ends
+                       AP(0, up_a, "edge")]
+    # a shared instance and a rejected assignment: nothing changes; then an accepted one
+    yield [C(["a", "b"]),
+           {"op": "assign", "i": 0, "field": "node_props_metadata", "v": {"a": dict(pb)}, "inst": True, "sh": ["a"]},
+           {"op": "assign", "i": 0, "field": "edge_props_metadata", "v": {"a": dict(pa), "q": {"identifier": "q", "dtype": "i4,,"}}, "inst": False, "sh": ["a"]},
+           AP(0, up_a, "node")]
+
+
 def generate(rng: random.Random, tier: str):
     for ops in directed_scenarios():
         yield {"kind": "run", "block": "scenario", "ops": copy.deepcopy(ops)}
+    for ops in sharing_scenarios():
+        yield {"kind": "run", "block": "sharing", "ops": copy.deepcopy(ops)}
     yield from exhaustive_small_blocks()
+    yield from bool_block()
+    yield from dtype_random_block(rng, tier)
     yield from exhaustive_assign_block(tier)
     for _ in range(900 if tier == "quick" else 30000):
         n = pick(rng, [2, 3, 4, 5, 6, 8])
@@ -714,9 +884,31 @@ def _instances(field, v):
     return v
 
 
-def _construct(via, kw):
+def _share_construct(kw, sh):
+    """Instances for a construction in which, for every key of sh present in both property dictionaries (as
+    well-shaped dicts), ONE PropMetadata instance is passed in both.  Returns (kwargs, keys actually shared)."""
+    from geff_spec import PropMetadata
+
+    out = {k: _instances(k, v) for k, v in kw.items()}
+    done = []
+    nd, ed = out.get("node_props_metadata"), out.get("edge_props_metadata")
+    if isinstance(nd, dict) and isinstance(ed, dict):
+        for k in sh:
+            if isinstance(nd.get(k), PropMetadata) and isinstance(ed.get(k), PropMetadata):
+                ed[k] = nd[k]
+                done.append(k)
+    return out, done
+
+
+def _construct(via, kw, sh=None, st=None):
     import zarr
     from geff_spec import GeffMetadata
+
+    if sh and via == "instances" and isinstance(kw, dict):
+        kwargs, done = _share_construct(kw, sh)
+        if st is not None:
+            st["sh_eff"] = done
+        return GeffMetadata(**kwargs)
 
     if via == "kwargs":
         if not isinstance(kw, dict):
@@ -801,13 +993,30 @@ def run_impl(c):
         new = None
         try:
             if k == "construct":
-                new = _construct(o["via"], to_py(o["kw"]))
+                new = _construct(o["via"], to_py(o["kw"]), o.get("sh"), st)
             elif k == "assign":
                 v = to_py(o["v"])
                 if o.get("inst"):
                     v = _instances(o["field"], v)
+                if o.get("sh") and o["field"] in ("node_props_metadata", "edge_props_metadata") and isinstance(v, dict):
+                    # the caller passes, under a key of sh, the very instance the object holds under that key in its
+                    # OTHER property dictionary
+                    other = getattr(pool[idx], "edge_props_metadata" if o["field"] == "node_props_metadata" else "node_props_metadata")
+                    v_eff = dict(o["v"])
+                    done = []
+                    for kk in o["sh"]:
+                        if kk in v and kk in other:
+                            v[kk] = other[kk]
+                            v_eff[kk] = enc(other[kk].model_dump())
+                            done.append(kk)
+                    st["sh_eff"], st["v_eff"] = done, v_eff
                 setattr(pool[idx], o["field"], v)
             elif k == "copy":
+                how = o["how"]
+                if how in ("zarr_roundtrip", "json_roundtrip") and has_nonfinite(enc(pool[idx].model_dump())):
+                    how = "deepcopy"
+                st["copy_kind"] = {"deepcopy": "CDeep", "model_copy_deep": "CDeep", "copy": "CShallow", "model_copy": "CShallow",
+                                   "zarr_roundtrip": "CRebuild", "json_roundtrip": "CRebuild"}[how]
                 new = _copy(pool[idx], o["how"])
             elif k == "update_axes":
                 kw = _lists_kwargs(o["lists"], False)
@@ -848,21 +1057,23 @@ def run_impl(c):
 
 # ------------------------------------------------------------------ Coq terms
 def c_op(o, st) -> str:
+    """The operation as a term of MetaAlias.aop (PropMetadata instances explicit)."""
     k = o["op"]
     if k == "construct":
-        return f"(OConstruct {to_jv(o['kw'])})"
+        return f"(AConstruct {to_jv(o['kw'])} {clist(st.get('sh_eff') or [], cstr8)})"
     if k == "assign":
-        return f"(OAssign {cnat(st['idx'])} {FIELD_COQ[o['field']]} {to_jv(o['v'])})"
+        return (f"(AAssign {cnat(st['idx'])} {FIELD_COQ[o['field']]} {to_jv(st.get('v_eff', o['v']))} "
+                f"{clist(st.get('sh_eff') or [], cstr8)})")
     if k == "copy":
-        return f"(OCopy {cnat(st['idx'])})"
+        return f"(ACopy {cnat(st['idx'])} {st.get('copy_kind', 'CDeep')})"
     if k == "update_axes":
-        return f"(OUpdateAxes {cnat(st['idx'])} {c_lists(o['lists'])})"
+        return f"(AUpdateAxes {cnat(st['idx'])} {c_lists(o['lists'])})"
     if k == "create_or_update":
-        return f"(OCreateOrUpdate {copt(st['idx'], cnat)} {to_jv(o['directed'])} {to_jv(o['axes'])})"
+        return f"(ACreateOrUpdate {copt(st['idx'], cnat)} {to_jv(o['directed'])} {to_jv(o['axes'])})"
     if k == "add_props":
-        return f"(OAddProps {cnat(st['idx'])} {to_jv(o['props'])} {to_jv(o['ctype'])})"
+        return f"(AAddProps {cnat(st['idx'])} {to_jv(o['props'])} {to_jv(o['ctype'])})"
     if k == "axes_from_lists":
-        return f"(OAxesFromLists {c_lists(o['lists'])})"
+        return f"(AAxesFromLists {c_lists(o['lists'])})"
     raise HarnessError(k)
 
 
@@ -883,7 +1094,7 @@ def _coq_case(c, obs):
         ch = clist(st["changed"], lambda p: f"({cnat(p[0])}, {c_md(p[1])})")
         axes = copt(st["axes"], lambda l: clist(l, c_axis))
         sts.append(f"({out}, {ch}, {axes})")
-    return f"(IRun {cstr8(obs['gv'])} {clist(ops)}, ORun {clist(sts)})"
+    return f"(IRunA {cstr8(obs['gv'])} {clist(ops)}, ORun {clist(sts)})"
 
 
 # ------------------------------------------------------------------ oracle (from the property text)
